@@ -228,6 +228,58 @@ def check_style_history(ctx, case, by_construction=False):
                 return
 
 
+STYLE_SET_OPS = [("add", "t", "red"), ("add", "t", "blue"), ("add", "w", "green"), ("remove", "t"), ("remove", "w"),
+                 ("remove", "zz"), ("replace", "t", "yellow"), ("replace",)]
+
+
+def check_style_set(ctx, case, by_construction=False):
+    """A style set that is edited (add / remove / replace): a formatter built from it afterwards renders exactly the
+    styles it holds at that moment; tags it does not hold are shown as written."""
+    from clikit.api.formatter import Style, StyleSet
+    from clikit.formatter import AnsiFormatter, PlainFormatter
+
+    ctx.case("style-set", case, True, distinct_by_construction=by_construction)
+    ss = StyleSet()
+    held = {}
+    src = LT + "t" + GT + "x" + LT + "/t" + GT + " " + LT + "w" + GT + "y" + LT + "/w" + GT
+    for i, op in enumerate(case["ops"]):
+        try:
+            if op[0] == "add":
+                ss.add(Style(op[1]).fg(op[2]))
+                held[op[1]] = markup.FG[op[2]]
+            elif op[0] == "remove":
+                ss.remove(op[1])
+                held.pop(op[1], None)
+            else:
+                ss.replace([Style(op[1]).fg(op[2])] if len(op) > 1 else [])
+                held = {op[1]: markup.FG[op[2]]} if len(op) > 1 else {}
+            ansi = AnsiFormatter(ss, forced=True).format(src)
+            plain = PlainFormatter(ss).format(src)
+            text, styles = markup.parse_sgr(ansi)
+        except Exception as e:
+            ctx.fail("style-set", "C11.sgr", case, sorted(held), {"after_op": i}, exc=e)
+            return
+        want_text, want_styles = "", []
+        for tag, body in (("t", "x"), ("w", "y")):
+            if want_text:
+                want_text += " "
+                want_styles.append(frozenset())
+            if tag in held:
+                want_text += body
+                want_styles.append(frozenset([held[tag]]))
+            else:
+                lit = LT + tag + GT + body + LT + "/" + tag + GT
+                want_text += lit
+                want_styles.extend([frozenset()] * len(lit))
+        if text != want_text or styles != want_styles:
+            ctx.fail("style-set", "C11.sgr", case, {"text": want_text, "held": held}, {"after_op": i, "ansi": ansi},
+                     sig="style-set")
+            return
+        if plain != want_text:
+            ctx.fail("style-set", "C11.plain-clean", case, want_text, {"after_op": i, "plain": plain}, sig="style-set-plain")
+            return
+
+
 def shard_style_history(ctx, first):
     for n in (0, 1, 2):
         for rest in itertools.product(SETTER_OPS, repeat=n):
@@ -394,7 +446,7 @@ def program_st():
     return st.fixed_dictionaries({"program": st.lists(item, min_size=1, max_size=5)})
 
 
-PARTS = {"style-history": check_style_history, "message": check_message, "style": check_style, "newline": check_newline, "indent": check_indent}
+PARTS = {"style-set": check_style_set, "style-history": check_style_history, "message": check_message, "style": check_style, "newline": check_newline, "indent": check_indent}
 
 
 HYP = {"message": (lambda ctx: markup.nodes_st().map(lambda n: {"nodes": n}), check_message),
@@ -409,6 +461,10 @@ def run(ctx):
     ctx.exhaustive("style", True, "18 foreground x 18 background x 2^7 attribute sets, three ways of supplying the style")
     ctx.parallel("shard_style_history", list(range(len(SETTER_OPS))))
     ctx.exhaustive("style-history", True, "all sequences of 1-3 setter calls (11 setters) on one Style object, used three ways after every call")
+    for n in (1, 2, 3, 4):
+        for ops in itertools.product(STYLE_SET_OPS, repeat=n):
+            check_style_set(ctx, {"ops": [list(o) for o in ops]}, True)
+    ctx.exhaustive("style-set", True, "all sequences of 1-4 edits of one StyleSet over %d add / remove / replace operations" % len(STYLE_SET_OPS))
     lm = line_methods()
     ctx.note("line-writing methods by reflection: %r" % (lm,))
     for kind, cls in c10.KINDS.items():
